@@ -180,6 +180,10 @@ pub fn run_lock_scenario(sc: &Value, scratch: &Path, out: &mut Out, shim_so: Opt
             let _ = pr.child.wait();
         }
         let n = 2 + (round % 3);
+        if round % 2 == 1 {
+            let _ = std::fs::remove_dir_all(&root);
+            std::fs::create_dir_all(&root).unwrap();
+        }
         let mut ps: Vec<Proc> = (0..n).map(|_| spawn(&root, shim_so)).collect();
         // write all commands first, then read: the children race on the lock
         for pr in ps.iter_mut() {
@@ -191,6 +195,7 @@ pub fn run_lock_scenario(sc: &Value, scratch: &Path, out: &mut Out, shim_so: Opt
         let mut oks = 0;
         let mut already = 0;
         let mut other = 0;
+        let mut loser_muts = 0;
         for pr in ps.iter_mut() {
             let mut s = String::new();
             let _ = pr.stdout.read_line(&mut s);
@@ -198,11 +203,14 @@ pub fn run_lock_scenario(sc: &Value, scratch: &Path, out: &mut Out, shim_so: Opt
                 oks += 1;
             } else if s.starts_with("AlreadyOpened") {
                 already += 1;
+                if let Some((_, m)) = s.trim().split_once(" muts=") {
+                    loser_muts += m.parse::<i64>().unwrap_or(0);
+                }
             } else {
                 other += 1;
             }
         }
-        out.emit(&json!({"ev": "race", "n": n, "oks": oks, "already": already, "other": other}));
+        out.emit(&json!({"ev": "race", "n": n, "oks": oks, "already": already, "other": other, "loser_muts": loser_muts, "fresh": round % 2 == 1}));
         for mut pr in ps {
             let _ = ask(&mut pr, "quit");
             let _ = pr.child.wait();
